@@ -1167,6 +1167,8 @@ class DesignSpace:
             out[..., norm_inds] -= self.__lower_bounds_array[norm_inds]
 
         if isinstance(out, sparse_classes):
+            # The attribute ``indices`` stores the column indices in CSR format only.
+            out = out.tocsr()
             # Construct a mask to only scale the required columns
             column_mask = isin(out.indices, norm_inds)
             # Scale the corresponding coefficients
@@ -1318,6 +1320,8 @@ class DesignSpace:
             out = out.astype(current_x_dtype, copy=False)
 
         if isinstance(out, sparse_classes):
+            # The attribute ``indices`` stores the column indices in CSR format only.
+            out = out.tocsr()
             # Construct a mask to only scale the required columns
             column_mask = isin(out.indices, norm_inds)
             # Scale the corresponding coefficients
